@@ -355,13 +355,18 @@ def dep_closure(*file_lists):
 
 
 def theorem_names(vfile):
-    """names of Theorem/Lemma/Corollary/Example statements in a .v file"""
+    """names of Theorem/Lemma/Corollary/Example statements in a .v file, and of citations
+    `Definition Cxx_name := <qualified theorem>.` (a theorem of a component file cited by name)"""
     names = []
     try:
         for line in open(vfile):
             m = re.match(r'\s*(Theorem|Lemma|Corollary|Example|Fact|Proposition)\s+([A-Za-z0-9_\']+)', line)
             if m:
                 names.append(m.group(2))
+                continue
+            m = re.match(r"\s*Definition\s+(C\d\d_[A-Za-z0-9_']+)\s*:=\s*[A-Za-z0-9_.']+\.\s*$", line)
+            if m:
+                names.append(m.group(1))
     except OSError:
         pass
     return names
